@@ -12,7 +12,7 @@ func init() {
 	register(&propDef{
 		id: "C12",
 		li: levelInfo{
-			Level: "proof",
+			Level:       "proof",
 			Explanation: "Decided for all inputs without executing anything. O1: the 256 constants of the CRC table (read from the program's initialiser stores) equal the remainders for polynomial 0x1021 and the table is GF(2)-linear. O2: the SSA of the fold body is interpreted over GF(2)-affine forms in the 16 state bits and 8 byte bits; the resulting 16x24 bit-matrix must equal that of one CRC-16/XMODEM step, which covers all 2^16 x 2^8 (state, byte) pairs at once. O3: the fold starts at 0, visits indices 0..len-1 once each in order and returns the loop-carried state. O4: the two scans of the hash-tag function are recognised as first-index loops and its branch structure is evaluated in a zone domain over the four orderings of ('{' position, '}' position, length); the returned expression must be whole key / whole key / whole key / b[i+1:j]. O5: the routing index is crc16(hashtag(key)) & 16383 into a 16384-entry table and no other computed read index exists.",
 			Assumptions: []string{"polynomial 0x1021 (CRC-16/XMODEM) and the Redis Cluster hash-tag rule are the reference", "the checker's affine domain, zone domain and first-index-loop lemma are correct (about 500 lines)"},
 			TrustedBase: []string{"go/packages + go/ssa construction", "samlint ebits.go (GF(2)-affine domain)", "samlint zone.go (difference-bound matrices)", "first-index loop lemma in rules_c12.go", "CRC-16/XMODEM polynomial 0x1021; Redis Cluster specification hash-tag text"},
@@ -43,12 +43,12 @@ type loopShape struct {
 	header   *ssa.BasicBlock
 	body     *ssa.BasicBlock
 	exit     *ssa.BasicBlock
-	phi      *ssa.Phi   // induction phi
-	useIdx   ssa.Value  // the value that indexes the slice in iteration (phi, or phi+1 in range form)
-	initOK   bool       // sequence of useIdx starts at 0
-	bound    ssa.Value  // compared against (useIdx < bound)
-	initTerm ssa.Value  // initial value of useIdx sequence (for non-zero starts): value v such that first useIdx = v
-	initAdd  int64      // first useIdx = initTerm + initAdd
+	phi      *ssa.Phi  // induction phi
+	useIdx   ssa.Value // the value that indexes the slice in iteration (phi, or phi+1 in range form)
+	initOK   bool      // sequence of useIdx starts at 0
+	bound    ssa.Value // compared against (useIdx < bound)
+	initTerm ssa.Value // initial value of useIdx sequence (for non-zero starts): value v such that first useIdx = v
+	initAdd  int64     // first useIdx = initTerm + initAdd
 }
 
 // findCountedLoop recognises `for i := init; i < bound; i++` (and the range lowering) at header h.
